@@ -62,6 +62,11 @@ var specs = []string{"* * * * * *", "*/2 * * * * *", "*/3 * * * * *", "0,30 * * 
 var sleeps = []time.Duration{300 * time.Millisecond, time.Second, 2 * time.Second, 2500 * time.Millisecond, 7 * time.Second, 700 * time.Millisecond}
 
 func body(s *simrt.Sim, tier string) {
+	// one run in five uses a stepped fake clock and an exact reference model (stepped_test.go)
+	if s.Choose(5, "stepped") == 0 {
+		stepped(s, tier)
+		return
+	}
 	mode := s.Choose(4, "mode") // 0,1 exact; 2 no injected delays but wall-clock jumps; 3 injected delays (and possibly jumps)
 	exact := mode < 2
 	if mode < 3 {
